@@ -202,7 +202,7 @@ impl Check for CrossCheck {
 
     fn budget(&self, tier: Tier) -> u64 {
         match tier {
-            Tier::Quick => 10_000,
+            Tier::Quick => 40_000,
             Tier::Thorough => 250_000,
         }
     }
